@@ -42,6 +42,13 @@ def generate(seed, tier):
     st = Streams(kernel.H(seed, "c13"))
     rng = st.ops
     ops = []
+    # in half of the runs the early instances use the first constructor variant only, so that a
+    # later instance (created after a report / save) introduces a new shape of a known class
+    hold_back = rng.random() < 0.5
+    if hold_back:
+        for op in rec["ops"]:
+            if op["op"] == "new_cg":
+                op["variant"] = 0
     for op in rec["ops"]:
         ops.append(op)
         if op["op"] == "sample" and rng.random() < 0.06:
@@ -56,11 +63,40 @@ def generate(seed, tier):
             else:
                 ops.append({"op": "clock", "dt": rng.choice([3600.0, -7200.0, 1e5]),
                             "freeze": rng.random() < 0.3})
+            if rng.random() < 0.35:
+                # a new instance (possibly a new shape of an already registered class) right after
+                # a report / save: later reports must contain it
+                cg = rng.choice(rec["prog"]["cgs"])
+                nv = len(cg["variants"])
+                var = rng.randrange(nv) if not (hold_back and nv > 1) else rng.randrange(1, nv)
+                ops.append({"op": "new_cg", "cls": cg["name"], "variant": var, "late": True})
     ops.append({"op": "report", "kind": "model"})
     ops.append({"op": "clock", "dt": -86400.0})
     ops.append({"op": "save", "n_sites": 7, "site_seed": rng.randint(0, 1 << 30)})
     ops.append({"op": "report", "kind": "text", "details": True})
-    rec["ops"] = ops
+    # renumber instance indices: late instances shift the creation order
+    cgd = {c["name"]: c for c in rec["prog"]["cgs"]}
+    mapping, out, n_new, n_orig = {}, [], 0, 0
+    for op in ops:
+        op = dict(op)
+        if op["op"] == "new_cg":
+            if not op.get("late"):
+                mapping[n_orig] = n_new
+                n_orig += 1
+                out.append(op)
+            else:
+                out.append(op)
+                for _ in range(rng.randint(0, 2)):
+                    out.append({"op": "sample", "i": n_new, "late": True,
+                                "vals": covgen.sample_values(rng, cgd[op["cls"]], rec["prog"]["enums"])})
+            n_new += 1
+            continue
+        if op["op"] in ("sample", "query") and not op.get("late"):
+            if op["i"] not in mapping:
+                continue
+            op["i"] = mapping[op["i"]]
+        out.append(op)
+    rec["ops"] = out
     rec["prop"] = ID
     return rec
 
